@@ -152,6 +152,47 @@ def total_sort(fx, f, t, name, recv_ty):
     return cmp_called and r[2] == {"0"} and r[3] == {"0"}
 
 
+def only_existence(f, t):
+    """the Option a `next()` answers is only asked whether it is Some (`.next().is_some()`, `is_none()`, a match that binds nothing): that does not depend on
+    which element came first"""
+    L = t["dst"]["l"]
+    if t["dst"].get("p"):
+        return False
+    alias = {L}
+    import json as _json
+
+    def mentions(node, locs):
+        txt = _json.dumps(node)
+        return any(('"l": %d,' % l) in txt or ('"l": %d}' % l) in txt for l in locs)
+    for _ in range(2):
+        for _, _, st in lib.stmts(f):
+            if st["k"] == "assign" and st["rv"].get("k") == "ref" and (st["rv"].get("place") or {}).get("l") in alias and not (st["rv"]["place"].get("p")):
+                alias.add(st["dst"]["l"])
+            if st["k"] == "assign" and st["rv"].get("k") in ("use",) and lib.op_local(st["rv"].get("op")) in alias:
+                alias.add(st["dst"]["l"])
+    for _, _, st in lib.stmts(f):
+        if st["k"] != "assign":
+            continue
+        rv = st["rv"]
+        if not mentions(rv, alias):
+            continue
+        if rv.get("k") == "discr":
+            continue
+        if rv.get("k") in ("ref", "use") and st["dst"]["l"] in alias:
+            pl = rv.get("place") or lib.op_place(rv.get("op")) or {}
+            if not pl.get("p"):
+                continue
+        return False
+    for _, t2 in lib.calls(f):
+        if t2 is t:
+            continue
+        if mentions(t2["args"], alias):
+            p2 = lib.norm(lib.callee(t2)[0] or "")
+            if not p2.endswith(("Option::is_some", "Option::is_none")):
+                return False
+    return True
+
+
 def classify(fx, for_c14=False):
     """yields (key, fn, term, consumer, verdict, reason) for every hash-ordered consumer site in scope"""
     seen = {}
@@ -165,6 +206,9 @@ def classify(fx, for_c14=False):
         key = "%s|%s#%d" % (fp, name, seen[kk])
         if name in INSENSITIVE:
             yield key, f, t, name, "auto", "order-insensitive consumer"
+            continue
+        if name == "next" and only_existence(f, t):
+            yield key, f, t, name, "auto", "the element is only asked for its existence (is_some / is_none)"
             continue
         if name in ("collect", "collect_vec", "extend") and any(dst.startswith(o) for o in ORDERED_DST):
             yield key, f, t, name, "auto", "collected into %s" % dst.split("<")[0]
